@@ -9,5 +9,7 @@ def run(ctx):
     from ..scen_go import go_chain
     go_chain(ctx, want=('go.capacity',))
     go_chain(ctx, want=('go.complete',))
+    from ..scen_misc import value_order_arms
+    value_order_arms(ctx)      # the bounded sort places keys with the same order the unbounded one uses: one order, arm by arm
     from ..conform import conformance
     conformance(ctx, ['pipeline'])      # the references the obligations are stated against, compared with jawk::go on concrete runs (validates the oracles; never decides)
